@@ -337,6 +337,9 @@ type SOp struct {
 	ID2     int    `json:"id2,omitempty"` // burst: second id spawned concurrently by G2 goroutines
 	G2      int    `json:"g2,omitempty"`
 	Backlog int    `json:"backlog,omitempty"`
+	// stillborn: the actor is spawned WithMaxRestarts(0) and panics in this lifecycle handler
+	// ("Initialized" | "Started"), so it has already stopped when Spawn returns
+	DiesIn string `json:"dies_in,omitempty"`
 }
 
 type SCase struct {
@@ -353,6 +356,7 @@ type spawnHarness struct {
 	calls  map[string]int
 	logs   map[string][]string // id -> "inc:N"
 	parent *actor.PID
+	diesIn map[string]string // id -> lifecycle handler in which the next incarnation panics
 }
 
 func (h *spawnHarness) producer(id string) actor.Producer {
@@ -360,9 +364,19 @@ func (h *spawnHarness) producer(id string) actor.Producer {
 		h.mu.Lock()
 		h.calls[id]++
 		inc := h.calls[id]
+		dies := h.diesIn[id]
+		delete(h.diesIn, id)
 		h.mu.Unlock()
 		return recv(func(c *actor.Context) {
 			switch m := c.Message().(type) {
+			case actor.Initialized:
+				if dies == "Initialized" {
+					panic("generated panic in Initialized")
+				}
+			case actor.Started:
+				if dies == "Started" {
+					panic("generated panic in Started")
+				}
 			case gate:
 				<-m.ch
 			case umsg:
@@ -388,15 +402,16 @@ func idOf(id int, child bool) (kind, sub, full string) {
 }
 
 // spawn one actor under the given id, top level or as a child of the parent actor.
-func (h *spawnHarness) spawn(id int, child bool) error {
+func (h *spawnHarness) spawn(id int, child bool, more ...actor.OptFunc) error {
 	kind, sub, full := idOf(id, child)
+	opts := append([]actor.OptFunc{actor.WithID(sub)}, more...)
 	if !child {
-		h.e.Spawn(h.producer(full), kind, actor.WithID(sub))
+		h.e.Spawn(h.producer(full), kind, opts...)
 		return nil
 	}
 	done := make(chan struct{})
 	h.e.Send(h.parent, func(c *actor.Context) {
-		c.SpawnChild(h.producer(full), "kid", actor.WithID(sub))
+		c.SpawnChild(h.producer(full), "kid", opts...)
 		close(done)
 	})
 	return waitCh(done, "parent did not spawn the child")
@@ -408,7 +423,7 @@ func runSpawns(c SCase) (map[string]int, error) {
 	if err != nil {
 		return nil, fmt.Errorf("harness: %v", err)
 	}
-	h := &spawnHarness{e: e, calls: map[string]int{}, logs: map[string][]string{}}
+	h := &spawnHarness{e: e, calls: map[string]int{}, logs: map[string][]string{}, diesIn: map[string]string{}}
 	mon := newMonitor(e)
 	h.parent = e.SpawnFunc(func(c *actor.Context) {
 		if f, ok := c.Message().(func(*actor.Context)); ok {
@@ -447,6 +462,29 @@ func runSpawns(c SCase) (map[string]int, error) {
 				m.live, m.calls = true, m.calls+1
 			}
 			if err := h.spawn(op.ID, op.Child); err != nil {
+				return nil, err
+			}
+		case "stillborn":
+			if op.DiesIn != "Initialized" && op.DiesIn != "Started" {
+				return nil, nil
+			}
+			if m.live {
+				// the id is taken: nothing happens, the doomed producer never runs
+				wantDup[full]++
+				feat["sequential-duplicate"]++
+			} else {
+				if m.stopped > 0 {
+					feat["respawn-after-stop"]++
+				}
+				// it runs once, dies of max-restarts inside Spawn, and is gone when Spawn returns
+				m.calls++
+				m.stopped++
+				feat["died-inside-its-own-spawn"]++
+				h.mu.Lock()
+				h.diesIn[full] = op.DiesIn
+				h.mu.Unlock()
+			}
+			if err := h.spawn(op.ID, op.Child, actor.WithMaxRestarts(0)); err != nil {
 				return nil, err
 			}
 		case "burst":
@@ -635,7 +673,7 @@ func genSpawns(t *rapid.T) SCase {
 	c := SCase{}
 	n := rapid.IntRange(1, 14).Draw(t, "ops")
 	for i := 0; i < n; i++ {
-		op := SOp{K: rapid.SampledFrom([]string{"spawn", "spawn", "burst", "burst", "stop", "poison", "dupover"}).Draw(t, "k")}
+		op := SOp{K: rapid.SampledFrom([]string{"spawn", "spawn", "spawn", "burst", "burst", "stop", "poison", "dupover", "stillborn"}).Draw(t, "k")}
 		op.ID = rapid.IntRange(0, 2).Draw(t, "id")
 		op.Child = rapid.IntRange(0, 2).Draw(t, "child") == 0
 		switch op.K {
@@ -646,6 +684,8 @@ func genSpawns(t *rapid.T) SCase {
 		case "dupover":
 			op.G = rapid.IntRange(1, 6).Draw(t, "g")
 			op.Backlog = rapid.IntRange(1, 20).Draw(t, "backlog")
+		case "stillborn":
+			op.DiesIn = rapid.SampledFrom([]string{"Initialized", "Started"}).Draw(t, "dies_in")
 		}
 		c.Ops = append(c.Ops, op)
 	}
